@@ -2,7 +2,7 @@
     complete, which is what lets a slot be located from the size alone.
     Statements only; proofs are in HeapProofs.v.  The model (HeapModel.v)
     transcribes src/heap.c and cstl_fls of src/common.c. *)
-From Cstl Require Import Prelude HeapModel HeapProofs HeapLinksModel HeapLinks.
+From Cstl Require Import Prelude HeapModel HeapProofs HeapLinksModel HeapLinks HeapLinksSim.
 Local Open Scope N_scope.
 
 (** cstl_fls, as coded (binary search with a 64-bit mask), is the position of
@@ -158,6 +158,41 @@ Theorem C07_promote_right_child m root c0 cl cx cr px sib :
                    rep m' None root' (zip c0 (T sib cx (T cl px cr))).
 Proof. exact (promote_right_refines m root c0 cl cx cr px sib). Qed.
 
+(** The whole heap at pointer level (HeapLinksModel.v: find, push with its two
+    stores and the sift-up loop, pop with the unlinking, [*n = *root], the
+    re-parenting and the sift-down loop, get, clear) simulates the functional
+    model: same results, faults exactly when the functional model faults, and
+    the memory again represents the functional tree -- so in every state
+    reached by any history every child link, every parent pointer and the root
+    pointer are consistent, and all theorems above transfer to the linked
+    structure.  [sim ph h]: [rep (pm ph) None (proot ph) (root h)] and equal
+    size fields.  [keyed]: the keys in the functional tree are the keys of the
+    nodes (preserved by every step). *)
+Section C07_links.
+  Variable key : nat -> Z.
+
+  Theorem C07_links_step_refines ph h o :
+    inv h -> keyed key (elems (root h)) -> sim ph h ->
+    match HeapModel.step key h o with
+    | Done h' out =>
+      exists ph', p_step key ph o = Done ph' out /\ sim ph' h' /\ keyed key (elems (root h'))
+    | Fault => p_step key ph o = Fault
+    | Precond => True
+    | Abort => False
+    end.
+  Proof. exact (p_step_refines key ph h o). Qed.
+
+  Theorem C07_links_run_refines ops :
+    match run (HeapModel.step key) h_init ops with
+    | (Done h' _, outs) =>
+      exists ph', run (p_step key) ph_init ops = (Done ph' [], outs) /\ sim ph' h'
+    | (Fault, outs) => run (p_step key) ph_init ops = (Fault, outs)
+    | (Precond, _) => True
+    | (Abort, _) => False
+    end.
+  Proof. exact (p_run_refines_init key ops). Qed.
+End C07_links.
+
 (** Non-vacuity: a concrete history with duplicate keys (0 0 1 1 2 2) goes
     through every kind of operation and ends in a non-trivial state that
     satisfies the hypotheses of the theorems above. *)
@@ -168,6 +203,24 @@ Example C07_example_run :
   match run (HeapModel.step key) h_init ops with
   | (Done h _, outs) =>
     map eid (abs h) = [4; 3; 1; 0; 2]%nat /\ size h = 5 /\
+    outs = [[]; []; []; []; []; []; [4]; [6]; [4]; [1; 0; 2; 3; 5]; []; []; []; []; [5]; []; []]%Z
+  | _ => False
+  end.
+Proof. vm_compute. auto. Qed.
+
+(** the same history on the pointer-level model: same outputs, and the memory
+    is the linked form of the final tree (4 at the root over 3 and 2; 1 and 0
+    under 3), every parent pointer right *)
+Example C07_example_links_run :
+  let key := fun n => nth n [0; 0; 1; 1; 2; 2]%Z 0%Z in
+  let ops := [Push 0; Push 1; Push 2; Push 4; Push 5; Push 3; Get; Size; Pop; Clear;
+              Push 3; Push 0; Push 2; Push 5; Pop; Push 1; Push 4]%nat in
+  match run (p_step key) ph_init ops with
+  | (Done ph _, outs) =>
+    proot ph = Some 4%nat /\ psize ph = 5 /\
+    map (pm ph) [0; 1; 2; 3; 4]%nat =
+      [mkN (Some 3) None None; mkN (Some 3) None None; mkN (Some 4) None None;
+       mkN (Some 4) (Some 1) (Some 0); mkN None (Some 3) (Some 2)]%nat /\
     outs = [[]; []; []; []; []; []; [4]; [6]; [4]; [1; 0; 2; 3; 5]; []; []; []; []; [5]; []; []]%Z
   | _ => False
   end.
@@ -216,3 +269,5 @@ Print Assumptions C07_clear_log_nodup.
 Print Assumptions C07_clear_result_init.
 Print Assumptions C07_promote_left_child.
 Print Assumptions C07_promote_right_child.
+Print Assumptions C07_links_step_refines.
+Print Assumptions C07_links_run_refines.
